@@ -12,6 +12,7 @@ import (
 	"regexp"
 	"sort"
 	"strings"
+	"time"
 
 	cs "github.com/lianxiangcloud/linkchain/consensus"
 	"github.com/lianxiangcloud/linkchain/libs/p2p"
@@ -21,7 +22,7 @@ import (
 // hit is one observation that contradicts the property (or a latent one).
 type hit struct {
 	Key      string          `json:"key"`
-	Kind     string          `json:"kind"` // "halt" | "state-change" | "liveness" | "latent"
+	Kind     string          `json:"kind"` // "halt" | "state-change" | "liveness" | "latent" | "halt-later" | "stall"
 	Class    string          `json:"class"`
 	Msg      json.RawMessage `json:"msg,omitempty"`
 	Concrete string          `json:"concrete,omitempty"`
@@ -53,7 +54,18 @@ type jobResult struct {
 	LiveTo      uint64         `json:"liveTo"`       // height committed by every node after the barrage
 	WALEntries  int            `json:"walEntries"`   // messages the target encoded for its write-ahead log
 	WALMaxBytes int            `json:"walMaxBytes"`
-	WALTooBig   int            `json:"walTooBig"` // entries the WAL decoder would refuse (> 1 MiB)
+	WALTooBig   int            `json:"walTooBig"` // entries above the WAL decoder's limit (> 1 MiB)
+	WALUnread   int            `json:"walUnreadable"` // entries the real WALDecoder refused when the log was read back
+	WALPredBig  int            `json:"walPredictedBig"` // deliveries that reached the WAL for which the model says the record is above the limit
+	BigMsgs     int            `json:"bigMsgs"`         // deliveries of messages instantiated at the reactor's size limit (-1, 0, +1 byte)
+	FollowUps   int            `json:"followUps"`       // own-step paths the target was driven through after peer input
+	FollowStrict  int          `json:"followStrict"`    // ... from a model state that describes the node exactly (projection compared)
+	FollowBlocked int          `json:"followBlocked"`   // ... given up without a verdict (the accepted input had taken the node elsewhere)
+	OwnSteps    int            `json:"ownSteps"`        // own steps executed on the real node
+	OwnCompared int            `json:"ownCompared"`     // ... after which height / round / tracked rounds / catch-up entries were compared with the model
+	GuardOver   int            `json:"guardOver"`       // ... in which SetRound ran over an entry that existed already
+	ByOwn       map[string]int `json:"byOwn"`
+	Secs        map[string]float64 `json:"secs"` // wall seconds by activity (rebuild, follow-up, WAL read-back)
 	Sample      interface{}    `json:"sample,omitempty"`
 	Infra       string         `json:"infra,omitempty"`
 }
@@ -68,6 +80,18 @@ type runner struct {
 	variants int
 	seenKey  map[string]bool
 	probe    []int // rounds whose vote sets' existence is part of the snapshot (String() of a HeightVoteSet hides negative catch-up rounds)
+
+	own       map[string][]*edge // the model's own-step edges by the state they start from
+	classOwn  ownState           // the model's `own` of the class state
+	follow    int                // a follow-up after this many deliveries that changed nothing
+	fuCount   int                // follow-ups made (selects the plan)
+	nSince    int                // deliveries since the class was (re)built
+	lastMsgs  []string           // the last few abstract messages delivered since
+	suspect   bool               // the node failed or changed against the model since the rebuild: no follow-up
+	unmodelled bool              // the node changed where the operational model says "none" (MayAffect over-approximates): the model state is not exact
+	inControl bool
+	controls  map[string]bool // outcome of the own steps of a plan on a node that received nothing from the attacker
+	wst       walStats
 }
 
 type snap struct {
@@ -91,23 +115,60 @@ func (rn *runner) at(s string) {
 	rn.w.Flush()
 }
 
-func (rn *runner) rebuild() error {
-	if rn.b != nil && rn.b.wal != nil {
-		rn.res.WALEntries += rn.b.wal.entries
-		rn.res.WALTooBig += rn.b.wal.tooBig
-		if rn.b.wal.maxBytes > rn.res.WALMaxBytes {
-			rn.res.WALMaxBytes = rn.b.wal.maxBytes
+// closeWAL stops the target's write-ahead log, reads it back and removes it.
+func (rn *runner) timed(what string) func() {
+	t0 := time.Now()
+	return func() {
+		if rn.res.Secs == nil {
+			rn.res.Secs = map[string]float64{}
 		}
-		rn.b.wal = nil
+		rn.res.Secs[what] += time.Since(t0).Seconds()
 	}
+}
+
+func (rn *runner) closeWAL() {
+	if rn.b == nil || rn.b.wal == nil {
+		return
+	}
+	defer rn.timed("wal-read-back")()
+	var st walStats
+	rn.b.wal.close(&st)
+	rn.b.wal = nil
+	if rn.inControl {
+		return
+	}
+	rn.res.WALEntries += st.entries
+	rn.res.WALTooBig += st.tooBig
+	rn.res.WALUnread += st.unreadable
+	if st.maxBytes > rn.res.WALMaxBytes {
+		rn.res.WALMaxBytes = st.maxBytes
+	}
+}
+
+// rebuildPlain builds a fresh node of the class (nothing else of the runner changes).
+func (rn *runner) rebuildPlain() error {
+	defer rn.timed("build-class")()
 	b, err := buildClass(rn.class, false)
 	if err != nil {
 		return err
 	}
 	if f := b.facts(); !factsMatch(f, wantFacts[rn.class]) {
+		if b.wal != nil {
+			b.wal.close(nil)
+		}
 		return fmt.Errorf("class %s: the node is in %+v, the specification's class is %+v", rn.class, f, wantFacts[rn.class])
 	}
 	rn.b = b
+	return nil
+}
+
+func (rn *runner) rebuild() error {
+	rn.closeWAL()
+	if err := rn.rebuildPlain(); err != nil {
+		return err
+	}
+	b := rn.b
+	rn.nSince, rn.lastMsgs, rn.suspect, rn.unmodelled = 0, nil, false, false
 	if rn.in == nil {
 		rn.in = newInst(b, rn.rng)
 	} else {
@@ -310,10 +371,13 @@ var changing = map[string]bool{"proposal": true, "recover": true, "part": true, 
 // replayEdge instantiates the abstract message `variants` times and delivers every instance
 // through the wire (both peer bookkeeping modes) and directly. It returns whether the real
 // state changed (the caller then rebuilds the class).
-func (rn *runner) replayEdge(e *edge, k int) (changedState bool, err error) {
+func (rn *runner) replayEdge(e *edge, k int) (changedState bool, why cause, err error) {
 	m := e.Act.M
+	why.Edge = e
+	rn.noteMsg(e)
 	if m.T == "byzblock" {
-		return rn.replayByz(e)
+		changedState, err = rn.replayByz(e)
+		return
 	}
 	signed := m.Sig == "who" || m.Sig == "proposer" || m.Sig == "other"
 	ndev := devCount(e)
@@ -323,8 +387,9 @@ func (rn *runner) replayEdge(e *edge, k int) (changedState bool, err error) {
 	paths = append(paths[rot:], paths[:rot]...)
 	cm, err := rn.in.make(m)
 	if err != nil {
-		return false, err
+		return false, why, err
 	}
+	why.Concrete, why.Hex = cm.desc, hexOf(cm.bytes)
 	rn.at(fmt.Sprintf("%s %s %s", rn.class, string(e.M), cm.desc))
 	rn.probe = cm.rounds
 	for pi, path := range paths {
@@ -334,6 +399,9 @@ func (rn *runner) replayEdge(e *edge, k int) (changedState bool, err error) {
 		}
 		var o outcome
 		onWire := strings.HasPrefix(path, "wire/")
+		if !onWire && sizeOf(m.Sz) > reactorMaxMsgSize && !m.Nilc {
+			continue // the model's message does not exist behind decodeMsg
+		}
 		if onWire {
 			rn.ensureMode(strings.TrimPrefix(path, "wire/"))
 			o = rn.wire(cm)
@@ -344,6 +412,13 @@ func (rn *runner) replayEdge(e *edge, k int) (changedState bool, err error) {
 				continue
 			}
 			o = rn.direct(dm)
+		}
+		rn.nSince++
+		if cm.big {
+			rn.res.BigMsgs++
+		}
+		if e.Act.WalBig && o.popped > 0 {
+			rn.res.WALPredBig++
 		}
 		rn.res.ByEff[e.Act.Eff]++
 		asis := e.Act.AsIs
@@ -362,6 +437,7 @@ func (rn *runner) replayEdge(e *edge, k int) (changedState bool, err error) {
 			if len(rec.Detail) > 400 {
 				rec.Detail = rec.Detail[:400]
 			}
+			rn.suspect = true
 			if onWire {
 				rec.Kind, rec.Key = "halt", "halt/"+m.T+"/"+panicClass(o.smFail)
 				rn.addHit(rec)
@@ -372,7 +448,7 @@ func (rn *runner) replayEdge(e *edge, k int) (changedState bool, err error) {
 				rec.Kind, rec.Key = "halt", "halt/"+m.T+"/"+panicClass(o.smFail)
 				rn.addHit(rec)
 			}
-			return true, nil // the node's state is suspect after a failure
+			return true, why, nil // the node's state is suspect after a failure
 		}
 		checkStutter := onWire || onOwnChannel(m)
 		if onWire && o.popped == 0 && e.Act.Fwd == "yes" && o.reactorFail == nil && !o.stopped {
@@ -388,8 +464,12 @@ func (rn *runner) replayEdge(e *edge, k int) (changedState bool, err error) {
 				rec.Key = "state-change/" + m.T + "/" + devFields(e)
 				rec.Detail = "the RoundState changed on a message the specification classifies as unable to affect the node: " + o.diff
 				rn.addHit(rec)
+				rn.suspect = true
 			}
-			return true, nil
+			if !changing[e.Act.Eff] {
+				rn.unmodelled = true
+			}
+			return true, why, nil
 		}
 		if checkStutter {
 			rn.res.Stutters++
@@ -398,7 +478,15 @@ func (rn *runner) replayEdge(e *edge, k int) (changedState bool, err error) {
 			rn.drift("%s: the model says %q for %s (%s); the node's RoundState did not change", rn.class, e.Act.Eff, string(e.M), path)
 		}
 	}
-	return false, nil
+	return false, why, nil
+}
+
+// noteMsg remembers the last few abstract messages delivered since the class was built.
+func (rn *runner) noteMsg(e *edge) {
+	rn.lastMsgs = append(rn.lastMsgs, string(e.M))
+	if len(rn.lastMsgs) > 3 {
+		rn.lastMsgs = rn.lastMsgs[len(rn.lastMsgs)-3:]
+	}
 }
 
 func onOwnChannel(m absMsg) bool {
@@ -424,7 +512,7 @@ func devList(e *edge) []string {
 	w := wantFacts[e.From.Cls]
 	cur := float64(w.H)
 	r := float64(w.R)
-	base := map[string]interface{}{"nilc": false, "h": cur, "r": r}
+	base := map[string]interface{}{"nilc": false, "h": cur, "r": r, "sz": "small"}
 	var alts []map[string]interface{}
 	switch m["t"] {
 	case "vote":
